@@ -513,7 +513,10 @@ class TextGen:
                 if self.tight():
                     n = 0
                 if it.required and n == 0 and not self.p(0.1):
-                    n = 1
+                    # a required map is normally filled; when it also carries defaults (zone U4)
+                    # leave it empty more often: defaults must not satisfy the requirement
+                    if not (it.rawdefaults and rng.random() < 0.5):
+                        n = 1
                 pool = list(FREE_KEYS[C.kt])
                 for _ in range(n):
                     k = rng.choice(pool)
